@@ -36,7 +36,7 @@ Match(e) ==
     [] e.act = "continue_rename_axes_copy" -> ContinueOn("rename_axes_copy", e.args)
     [] e.act = "continue_set_axis_copy" -> ContinueOn("set_axis_copy", e.args)
     [] e.act = "continue_rename_keys_copy" -> ContinueOn("rename_keys_copy", e.args)
-    [] e.act \in {"copy", "cross_assign", "rename_axes_copy", "set_axis_copy", "rename_keys_copy"} -> Pure(e.act, e.args)
+    [] e.act \in {"copy", "cross_assign", "rename_axes_copy", "set_axis_copy", "rename_keys_copy", "dim_variable"} -> Pure(e.act, e.args)
 
 \* the Dataset's dimensions are compared as a set of (name, labels); the variables (own dimension order, labels, cells, sharing) exactly
 DimSet(p) == {<<p.dims[i], p.labs[i]>> : i \in 1..Len(p.dims)}
